@@ -151,6 +151,33 @@ func smallAlphabet(d MD) []letter {
 			c.step(op{code: opLNewElementAppend, h: h, fd: lm, v: Val{U: 7}}, nil)
 		}
 	})
+	add("retained element across Truncate+AppendMutable", func(c *rdCase) {
+		h := sub(c, op{code: opMutable, fd: lm}, hi(hList, lm))
+		if c.dead {
+			return
+		}
+		e := sub(c, op{code: opLAppendMutable, h: h, fd: lm}, &hinfo{kind: hMsg, parent: h, d: lm.Message(), elem: "x"})
+		af := lm.Message().Fields().ByName("a")
+		if !c.dead {
+			c.step(op{code: opSetScalar, h: e, fd: af, v: Val{U: 1}}, nil)
+		}
+		if !c.dead {
+			c.step(op{code: opLTruncate, h: h, fd: lm, idx: 0}, nil)
+		}
+		var e2 int
+		if !c.dead {
+			e2 = sub(c, op{code: opLAppendMutable, h: h, fd: lm}, &hinfo{kind: hMsg, parent: h, d: lm.Message(), elem: "y"})
+		}
+		if !c.dead {
+			c.step(op{code: opGet, h: e, fd: af}, nil) // the element removed earlier keeps its content
+		}
+		if !c.dead {
+			c.step(op{code: opSetScalar, h: e2, fd: af, v: Val{U: 9}}, nil)
+		}
+		if !c.dead {
+			c.step(op{code: opGet, h: e, fd: af}, nil) // and does not alias the new element
+		}
+	})
 	add("Mutable(lm).Truncate(0)", func(c *rdCase) {
 		h := sub(c, op{code: opMutable, fd: lm}, hi(hList, lm))
 		if !c.dead {
